@@ -43,7 +43,17 @@ class C33(EngineACheck):
                 plan = None
                 if ex == crash_exec:
                     plan = DbFaultPlan(crash_at_commit=2 + ch.choice(25, "crash-k"))
-                res, f = histsim.run_with_faults(ch.choice(1 << 30, "sched"), prog, db, sess, plan=plan)
+                # a coarse clock (e.g. 15 ms timer resolution): quick jobs start and end at the
+                # same recorded instant
+                quantum = [0.0, 0.0, 0.016, 1.0][ch.choice(4, "clock-resolution")]
+
+                def coarse(w, rec, sched, q=quantum):
+                    w.clock.quantum = q
+
+                if quantum:
+                    out.probe("executions_under_coarse_clock")
+                res, f = histsim.run_with_faults(ch.choice(1 << 30, "sched"), prog, db, sess, plan=plan,
+                                                 extra_setup=coarse)
                 w = res.world
                 self.fill(out, w, prog, extra_key=str(ex))
                 if f.crashed:
